@@ -13,10 +13,16 @@ pub mod c07;
 pub mod c08;
 pub mod c09;
 pub mod c10;
+pub mod c11;
+pub mod c12;
+pub mod c13;
 pub mod c15;
 pub mod c16;
 pub mod c17;
 pub mod c18;
+pub mod ser_hll;
+pub mod ser_misc;
+pub mod ser_theta;
 
 pub struct PropDef {
     pub id: &'static str,
@@ -38,6 +44,9 @@ pub fn get(id: &str) -> Option<PropDef> {
         "C08" => Some(c08::def()),
         "C09" => Some(c09::def()),
         "C10" => Some(c10::def()),
+        "C11" => Some(c11::def()),
+        "C12" => Some(c12::def()),
+        "C13" => Some(c13::def()),
         "C15" => Some(c15::def()),
         "C16" => Some(c16::def()),
         "C17" => Some(c17::def()),
